@@ -395,10 +395,12 @@ Proof.
     + destruct ((backfilled data s <=? j) && (j <=? length (txs data s))) eqn:Ej; [|discriminate].
       inversion E; subst. apply inv_set_pc, inv_set_backfill; [|exact H].
       apply andb_prop in Ej. destruct Ej as [_ Ej]. apply Nat.leb_le. exact Ej.
-    + destruct (j =? length (txs data s)) eqn:Ej; [|discriminate]. apply Nat.eqb_eq in Ej.
-      inversion E; subst. apply inv_set_pc, inv_set_backfill; [lia|exact H].
-    + destruct (j =? length (txs data s)) eqn:Ej; [|discriminate]. apply Nat.eqb_eq in Ej.
-      inversion E; subst. apply inv_set_pc, inv_set_backfill; [lia|exact H].
+    + destruct ((backfilled data s <=? j) && (j <=? length (txs data s))) eqn:Ej; [|discriminate].
+      inversion E; subst. apply inv_set_pc, inv_set_backfill; [|exact H].
+      apply andb_prop in Ej. destruct Ej as [_ Ej]. apply Nat.leb_le. exact Ej.
+    + destruct ((backfilled data s <=? j) && (j <=? length (txs data s))) eqn:Ej; [|discriminate].
+      inversion E; subst. apply inv_set_pc, inv_set_backfill; [|exact H].
+      apply andb_prop in Ej. destruct Ej as [_ Ej]. apply Nat.leb_le. exact Ej.
     + destruct (j =? length (txs data s)) eqn:Ej; [|discriminate]. apply Nat.eqb_eq in Ej.
       inversion E; subst. apply inv_set_pc, inv_reset_trunc, inv_set_backfill; [lia|exact H].
   - destruct (pc data s); try discriminate. destruct (ls_mark data s); [discriminate|].
